@@ -27,7 +27,9 @@ RULE = ('Linear regime: valid chains (no self-locking mating), constant load (be
         '|w(0) - w_inf| and |theta_sim - theta| <= (k dt) |w(0) - w_inf| / k (1 + k t); at the common time t* ~ 1/k '
         'the error ratio err(dt_j) / err(dt_j+1) must lie in [1.6, 2.5] whenever the finer error is above 1e6 eps of the '
         'scale. Non-trivial = |w(0) - w_inf| > 1% of the no-load output speed and >= 2 usable error ratios; distinct '
-        '= canonical JSON.')
+        '= canonical JSON. Part dead-zone: the degenerate member of the family (k -> 0): a duty cycle inside the dead zone, '
+        'zero included, preset or imposed by a rule, gives no driving torque: w(t) = w(0) - (T_load / J_eq) t to 1e-9 and '
+        '|theta_sim - theta| <= |T_load / J_eq| t dt at every instant of three runs with halved steps.')
 ASSUMPTIONS = ['closed-form solution of the linear ODE and the explicit-Euler error constants (factor >= 2 of slack over '
                'the measured worst case)', 'equivalent inertia by the documented reduction']
 
@@ -188,6 +190,85 @@ def check(case) -> Result:
     return res
 
 
+def check_deadzone(case) -> Result:
+    """the degenerate member of the family: a duty cycle inside the dead zone (zero included) gives no driving torque at
+    all; the closed form is w(t) = w(0) - a t, theta(t) = theta0 + w(0) t - a t^2 / 2 with a = T_load / J_eq (the limit
+    k -> 0 of the exponential solution)"""
+    res = Result()
+    mdl = M.Model(case)
+    D = case['duty']['value']
+    a = case['load']['c0'] / mdl.J_eq
+    w0 = U.si('AngularSpeed', *case['init']['speed'])
+    th0 = U.si('AngularPosition', *case['init']['pos'])
+    n0, dt0, unit = case['n0'], case['kdt0'] / mdl.k, case['dt_unit']
+    last = mdl.n - 1
+    errs = []
+    for j in range(3):
+        dt_si, n = dt0 / 2 ** j, n0 * 2 ** j
+        dt = G.qty('TimeInterval', dt_si, unit)
+        ctl = case['duty']['how'] == 'rule'
+        c = dict(case, history=[{'op': 'run', 'dt': dt, 'T': [dt[0] * n, unit], 'control': ctl}])
+        if ctl:
+            c['control'] = [{'rule': 'constant', 'start': [0, 'sec'],
+                             'duration': G.qty('TimeInterval', dt_si * n * 2, 'sec'), 'value': D}]
+        try:
+            b, traces, err = S.simulate(c)
+        except Exception as e:  # noqa
+            res.classes += (f'build-rejected:{type(e).__name__}',)
+            res.build_error = e
+            return res
+        if err is not None or not traces:
+            res.classes += ('run-raised',)
+            res.run_error = err
+            from vp.simprops import by_design
+            if err is not None and not by_design(err):
+                res.bad(f'C04/dead-zone/run-raises/{type(err).__name__}', f'{type(err).__name__}: {err}')
+            return res
+        tr = traces[-1]
+        if not I.complete(tr) or not I.finite_trace(tr):
+            res.classes += ('incomplete-or-nonfinite-trace',)
+            return res
+        t, w, th = tr.t, tr.get(last, 'angular speed'), tr.get(last, 'angular position')
+        w_ref = w0 - a * t
+        th_ref = th0 + w0 * t - a * t * t / 2
+        sc_w = abs(w0) + abs(a) * t[-1] + 1e-300
+        bad = np.nonzero(np.abs(w - w_ref) > 1e-9 * sc_w)[0]
+        if len(bad):
+            i = int(bad[0])
+            res.bad('C04/dead-zone/speed-off-closed-form',
+                    f'duty cycle {D!r} (dead zone up to {mdl.i0 / mdl.imax!r}, imposed by {case["duty"]["how"]}): instant {i} '
+                    f't={t[i]!r}: speed {w[i]!r}, closed form w(0) - (T_load/J_eq) t = {w_ref[i]!r}')
+            break
+        bound = abs(a) * t * dt_si + 1e-9 * (np.abs(th_ref) + abs(th0) + sc_w * t[-1]) + 1e-300
+        bad = np.nonzero(np.abs(th - th_ref) > bound)[0]
+        if len(bad):
+            i = int(bad[0])
+            res.bad('C04/dead-zone/position-off-closed-form',
+                    f'duty cycle {D!r}: instant {i} t={t[i]!r}: position {th[i]!r}, closed form {th_ref[i]!r}, |error| '
+                    f'{abs(th[i] - th_ref[i])!r} > bound {bound[i]!r}')
+            break
+        errs.append(abs(th[-1] - th_ref[-1]))
+    res.nontrivial = a != 0 or w0 != 0
+    res.classes += ('dead-zone:zero' if D == 0 else 'dead-zone:inside', f'duty:{case["duty"]["how"]}')
+    return res
+
+
+@st.composite
+def s_deadzone(draw, max_len=4):
+    case = draw(s_case(max_len))
+    if case['duty']['how'] == 'no-currents' or M.Model(case).i0 is None:
+        case['motor'] = draw(G.s_motor(currents=True))
+        case['duty']['how'] = draw(st.sampled_from(['preset', 'rule']))
+    mdl = M.Model(case)
+    dz = mdl.i0 / mdl.imax
+    D = draw(st.sampled_from([0, 0.0, 0, dz * 0.5, -dz * 0.5, dz * 0.9]))
+    case['duty']['value'] = D
+    case['motor']['pwm0'] = D if case['duty']['how'] == 'preset' else 1
+    for k_ in ('split', 'stop_then_continue', 'redeclare'):
+        case.pop(k_, None)
+    return case
+
+
 @st.composite
 def s_case(draw, max_len=5):
     how = draw(st.sampled_from(['preset', 'rule', 'no-currents']))
@@ -230,8 +311,10 @@ def s_case(draw, max_len=5):
 
 def parts(tier):
     if tier == 'quick':
-        return [Part('linear', check, strategy=s_case(4), examples=40, shards=4)]
-    return [Part('linear', check, strategy=s_case(7), examples=300, shards=16)]
+        return [Part('linear', check, strategy=s_case(4), examples=40, shards=4),
+                Part('dead-zone', check_deadzone, strategy=s_deadzone(4), examples=25, shards=4)]
+    return [Part('linear', check, strategy=s_case(7), examples=300, shards=16),
+            Part('dead-zone', check_deadzone, strategy=s_deadzone(6), examples=100, shards=16)]
 
 
 def selftest():
